@@ -1,6 +1,6 @@
 import SqlObjVerif.Lemmas.Expr
 import SqlObjVerif.Lemmas.ExprXTop
-import SqlObjVerif.Lemmas.SelXRepr
+import SqlObjVerif.Lemmas.SelXNodes
 /-!
 # C03 — query expressions mean what was built (property theorems only)
 
@@ -651,5 +651,81 @@ theorem C03_translated_Select_sqlrepr_distinct_forUpdate (I : SIface) (s : St) (
       PySel.Stmt.exec I s Select_sqlrepr_s23 =
         .norm (if b then s.put 2 (.str (sel ++ [32, 70, 79, 82, 32, 85, 80, 68, 65, 84, 69])) else s)) :=
   ⟨fun hc hon => sqlrepr_distinct I s p d b sel h0 h2 hp hc hon, fun hc => sqlrepr_forUpdate I s p d b sel h0 h2 hp hc⟩
+
+
+/-! ### the whole `Select.__sqlrepr__`, and `IN (subselect)` -/
+
+/-- **`Select.__sqlrepr__` as translated, composed** (25 statements, 4 loops), for EVERY interface: on a Select without
+    joins, GROUP BY, HAVING, ORDER BY, DISTINCT ON, all columns, the text is
+    `SELECT [DISTINCT] <items joined by ", "> [FROM <collected tables, sorted>] [WHERE <clause>]`, handed to
+    `dbConnectionForScheme(db)._queryAddLimitOffset` when `start` is non-zero or `end` / `limit` is set, then
+    ` FOR UPDATE`.  The tables are the static ones plus what `tablesUsedSet` returns for every item and the clause that is
+    an `SQLExpression` (`Contributes`). -/
+theorem C03_translated_Select_sqlrepr_eq_model (I : SIface) (hsub : ∀ h, (I.E h).isSub = ExprX.isSub) (h : Heap) (p : Nat)
+    (db : Val) (o : OpsM) (hp : h.cells p = some (opsDict o)) (bd bf : Bool) (vs : List Val) (its sts : List Str)
+    (yss : List (List Str)) (ct : Option Str) (st : Int) (sel2 : Str)
+    (hd : o.distinct = .bool bd) (hdo : o.distinctOn = noDefault) (hlz : o.lazyColumns = .bool false)
+    (hit : o.items = .list vs) (hj : o.join = noDefault) (hst : o.staticTables = .list (sts.map .str))
+    (hg : o.groupBy = noDefault) (hhv : o.having = noDefault) (hob : o.orderBy = noDefault ∨ o.orderBy = .none)
+    (hfu : o.forUpdate = .bool bf) (hstart : o.start = .int st)
+    (hlim : o.limit = noDefault ∨ ∃ l, o.limit = .int l) (hen : o.end_ = .none ∨ ∃ e, o.end_ = .int e)
+    (hits : ExprX.AllR (fun v t => (I.E h).call "_str_or_sqlrepr" [v, db] = .ok (.str t)) vs its)
+    (hcn : ct = Option.none → (typeName o.clause == "@NoDefault") = true)
+    (hcs : ∀ t, ct = some t → (typeName o.clause == "@NoDefault") = false ∧
+      (I.E h).call "_str_or_sqlrepr" [o.clause, db] = .ok (.str t))
+    (hall : ExprX.AllR (Contributes I h db) (thingsOf vs o.clause) yss)
+    (hcall : (st != 0 || !isNoneV (endOf o.limit st o.end_)) = true →
+      limitCall I h db (selectText I.strLe bd its (yss.foldl unionStr (sts.foldl addStr [])) ct) st
+        (endOf o.limit st o.end_) = .ok (.str sel2)) :
+    runP I Select_sqlrepr [selObj p, db] h =
+      .ok (.str ((if (st != 0 || !isNoneV (endOf o.limit st o.end_)) then sel2
+          else selectText I.strLe bd its (yss.foldl unionStr (sts.foldl addStr [])) ct) ++
+        (if bf then [32, 70, 79, 82, 32, 85, 80, 68, 65, 84, 69] else []))) :=
+  Select_sqlrepr_spec I hsub h p db o hp bd bf vs its sts yss ct st sel2 hd hdo hlz hit hj hst hg hhv hob hfu hstart hlim hen
+    hits hcn hcs hall hcall
+
+/-- … on the MODEL of a Select, every call resolved to a translated program: items and clause are expression nodes,
+    their texts are the hand model's `renderS`, their tables the hand model's `tablesS` (`contribS`) -/
+theorem C03_translated_Select_sqlrepr_nodes (P : ExprX.Params) (Q : ParamsQ) (hT : ExprX.TextOk P) (d : String)
+    (h : Heap) (p : Nat) (o : OpsM) (hp : h.cells p = some (opsDict o)) (bd bf : Bool) (ns : List Node)
+    (cn : Option Node) (sts : List Str) (st : Int) (sel2 : Str) (k : Nat)
+    (hd : o.distinct = .bool bd) (hdo : o.distinctOn = noDefault) (hlz : o.lazyColumns = .bool false)
+    (hit : o.items = .list (ns.map (toVal P))) (hcl : o.clause = clauseV P cn) (hj : o.join = noDefault)
+    (hst : o.staticTables = .list (sts.map .str)) (hg : o.groupBy = noDefault) (hhv : o.having = noDefault)
+    (hob : o.orderBy = noDefault ∨ o.orderBy = .none) (hfu : o.forUpdate = .bool bf) (hstart : o.start = .int st)
+    (hlim : o.limit = noDefault ∨ ∃ l, o.limit = .int l) (hen : o.end_ = .none ∨ ∃ e, o.end_ = .int e)
+    (hk : ∀ n ∈ ns ++ cn.toList, ExprX.depth n ≤ k ∧ 2 * depthT n + 1 ≤ k)
+    (hcall : (st != 0 || !isNoneV (endOf o.limit st o.end_)) = true →
+      Q.limitOffset (.str (ExprX.strOf d)) (.str (selectText Q.strLe bd (ns.map (ExprX.renderS P d))
+        (((ns ++ cn.toList).map (contribS P)).foldl unionStr (sts.foldl addStr [])) (cn.map (ExprX.renderS P d))))
+        (.int st) (endOf o.limit st o.end_) = .ok (.str sel2)) :
+    runP (sIfaceF P Q (k + 2)) Select_sqlrepr [selObj p, .str (ExprX.strOf d)] h =
+      .ok (.str ((if (st != 0 || !isNoneV (endOf o.limit st o.end_)) then sel2
+          else selectText Q.strLe bd (ns.map (ExprX.renderS P d))
+            (((ns ++ cn.toList).map (contribS P)).foldl unionStr (sts.foldl addStr [])) (cn.map (ExprX.renderS P d))) ++
+        (if bf then [32, 70, 79, 82, 32, 85, 80, 68, 65, 84, 69] else []))) :=
+  select_sqlrepr_nodes P Q hT d h p o hp bd bf ns cn sts st sel2 k hd hdo hlz hit hcl hj hst hg hhv hob hfu hstart hlim hen
+    hk hcall
+
+/-- the WHERE part of a (sub)select is the expression theorem again: with the clause the object of a source tree `e`,
+    the text is `<SELECT … FROM …> WHERE <s>` where `s` spells the token rendering of `build e`, which the reference
+    parser reads back, under every precedence table, as the tree that was built -/
+theorem C03_parse_render_translated_where (P : ExprX.Params) (hT : ExprX.TextOk P) (Pr : Expr.Prec) (d : String)
+    (le : Str → Str → Bool) (bd : Bool) (its T : List Str) (e : Expr.BoolE) :
+    selectText le bd its T (some (ExprX.renderS P d (Expr.buildB e))) =
+      selectText le bd its T Option.none ++ ([32, 87, 72, 69, 82, 69, 32] ++ ExprX.renderS P d (Expr.buildB e)) ∧
+    ExprX.Spells P (Expr.render d false (Expr.buildB e)) (ExprX.renderS P d (Expr.buildB e)) ∧
+    Expr.parse Pr (Expr.render d false (Expr.buildB e)) = some (Expr.toT d (Expr.buildB e)) :=
+  ⟨rfl, ExprX.spells_render P hT d _ (Expr.wf_buildB d e), Expr.C03_parse_render Pr d e⟩
+
+/-- **`IN (subselect)`**: `sqlrepr(INSubquery(item, <Select>), db)` through the tied interface is
+    `<item> IN (<text of the Select>)` — the item NOT parenthesised (what the code does), the Select rendered by the
+    translated `Select.__sqlrepr__` from its ops dict in the heap -/
+theorem C03_translated_INSubquery_sqlrepr_eq_model (P : ExprX.Params) (Q : ParamsQ) (k : Nat) (h : Heap) (item db : Val)
+    (p : Nat) (s1 t : Str) (h1 : ((sIfaceF P Q (k + 1)).E h).call "sqlrepr" [item, db] = .ok (.str s1))
+    (ht : runP (sIfaceF P Q k) Select_sqlrepr [selObj p, db] h = .ok (.str t)) :
+    ((sIfaceF P Q (k + 2)).E h).call "sqlrepr" [.obj "INSubquery" [("item", item), ("subquery", selObj p)], db] =
+      .ok (.str (s1 ++ 32 :: ([73, 78] ++ 32 :: 40 :: (t ++ [41])))) :=
+  insubquery_sqlrepr P Q k h item db p s1 t h1 ht
 
 end SqlObjVerif.SelX
